@@ -470,7 +470,10 @@ def check_scaling(chk, sc, c):
         if sc.get("x0") is not None:
             scale = torch.maximum(scale, (sc["x0"].double() * c).abs().amax(-2, keepdim=True))
         rt = 1e-7 if sc["dtype"] == F64 else 1e-3
-        ok = bool((((want - got).abs() / scale) <= rt * max(10.0, eff_kappa(sc)[0])).all()) and r1.warn == r2.warn
+        A64 = sc["A"].double()
+        rr = ((sc["rhs"].double() - A64 @ r1.result.double()).norm(dim=-2, keepdim=True) / sc["rhs"].double().norm(dim=-2, keepdim=True).clamp_min(1e-300))
+        allowed = rt * max(10.0, eff_kappa(sc)[0]) + 2 * eff_kappa(sc)[1] * rr   # both runs are only relres-accurate
+        ok = bool((((want - got).abs() / scale) <= allowed).all()) and r1.warn == r2.warn
     if not ok:
         chk.violation(cell, f"x(c*b) != c*x(b) for c={c:g}: max |diff| {float((want - got).abs().max()):.3e}, iterations {len(r1.calls) - 1} vs {len(r2.calls) - 1}, "
                       f"warn {r1.warn} vs {r2.warn}", payload_of(sc, {"check": "scaling", "c": c}))
@@ -748,13 +751,18 @@ def compare_model(chk, sc, r, outs3, tol_rel):
         return abs(a - b) <= tol_rel * scale
 
     # trajectory of matmul_closure arguments
+    first_mag = None
     for ci, (call, mcall) in enumerate(zip(r.calls, base["tracev"])):
         if sc["dtype"] == F32 and ci > 3:
             break  # float32 trajectories are compared over the first calls only (rounding drift is not modelled)
         cols = flat_cols(call.double())
         if len(cols) != len(mcall):
             return ("break", f"matmul call {ci}: {len(cols)} columns vs model {len(mcall)}")
-        for col, mcol in zip(cols, mcall):
+        if ci == 1:
+            first_mag = [max((abs(v) for v in mcol), default=0.0) for mcol in mcall]
+        for cj, (col, mcol) in enumerate(zip(cols, mcall)):
+            if ci > 3 and first_mag is not None and max((abs(v) for v in mcol), default=0.0) < 1e-4 * first_mag[cj]:
+                continue  # direction shrunk by 1e4: what is left is amplified rounding noise (Krylov space exhausted)
             sc_ = max(1.0, float(col.abs().max()))
             for a, b in zip(col.tolist(), mcol):
                 if not close(a, b, sc_):
@@ -764,10 +772,12 @@ def compare_model(chk, sc, r, outs3, tol_rel):
     ref = torch.linalg.solve(sc["A"].double(), sc["rhs"].double()).expand(bsh)
     refs = flat_cols(ref)
     x0s = flat_cols(sc["x0"].double().expand(bsh)) if sc.get("x0") is not None else [torch.zeros(1, dtype=F64)] * len(refs)
+    kA = eff_kappa(sc)[1]
+    tol_sol = max(tol_rel, min(1e-4, 2 * kA * max(base["rnsv"], default=0.0)))
     for col, mcol, rc, gc in zip(xcols, base["xv"], refs, x0s):
         sc_ = max(1e-300, float(col.abs().max()), float(rc.abs().max()), float(gc.abs().max()))
         for a, b in zip(col.tolist(), mcol):
-            if not close(a, b, sc_) and not abs(a - b) < 1e-300:
+            if not abs(a - b) <= tol_sol * sc_ and not abs(a - b) < 1e-300:
                 return ("break", f"solution: implementation {a!r}, model {b!r}")
     if sc.get("n_tridiag"):
         T = r.tmat.double()
